@@ -31,6 +31,10 @@ AGG_POOL = [("sum", ["i8"]), ("sum", ["i16"]), ("sum", ["i32"]), ("sum", ["i64"]
                                                         "f64", "dec64(10,2)", "dec128(30,5)", "date32", "date64", "timestamp", "interval", "utf8", "binary")]
 
 
+PRED_KEYS = [p + s for p in ("array_push_inline", "sv_is_inline", "sv_is_reference", "sv_new_inline_assert", "sv_new_reference_assert",
+                              "sp_is_inline", "sp_is_reference", "sp_new_inline_assert", "sp_new_reference_assert") for s in ("_op", "_rhs")]
+
+
 def rand_types(rng, pool, lo, hi):
     n = lo + rng.below(hi - lo + 1)
     mode = rng.below(4)
@@ -147,8 +151,20 @@ def stage(ctx, rng, glayout, gmodel, tb):
         else:
             agg_keep.append((c, r))
             agg_lines.append("agg %s -" % ptys(c["groups"]))
-    mout = common.run_model(gmodel, "x", lines + agg_lines, timeout=600)
+    # model-side predictions that depend on a scanned constant are made only when that constant was found
+    preds_ok = all(tb.get(k) is not None for k in PRED_KEYS)
+    needs_preds = ("strpred2", "heapsizes")
+    send_idx = [i for i, k in enumerate(kinds) if preds_ok or k not in needs_preds]
+    mres = common.run_model(gmodel, "x", [lines[i] for i in send_idx] + agg_lines, timeout=600)
+    mmain = [None] * len(cases)
+    for i, o in zip(send_idx, mres[:len(send_idx)]):
+        mmain[i] = None if o == "nopreds" else o
+    mout = mmain + mres[len(send_idx):]
     mism, n, distinct = [], 0, set()
+    max_inline_real = 12
+    for r in real_main:
+        if "flags" in r:
+            max_inline_real = r.get("max_inline_len", 12)
     counts = {}
     aligns = set()
     for c, k, r, m in zip(cases, kinds, real_main, mout[:len(cases)]):
@@ -188,6 +204,32 @@ def stage(ctx, rng, glayout, gmodel, tb):
                 offs.append(tot)
                 tot += x
             want = "sizes=%s offsets=%s total=%d" % (csv(sz), csv(offs), tot)
+        # implementation-side rules that need no model: they hold on the real code or the concrete input is reported
+        if k == "strpred2" and "flags" in r:
+            for ln, f in zip(c["lens"], r["flags"]):
+                if "p" in f:
+                    mism.append({"what": "a StringView/StringPtr constructor assertion fires for a value of %d bytes" % ln, "len": ln, "flags": f})
+                elif f[0] != f[2] or f[1] == f[0] or f[3] == f[2] or (f[0] == "1") != (ln <= max_inline_real):
+                    mism.append({"what": "a string of exactly %d bytes: StringView (array reader, ROW WRITER) says inline=%s, StringPtr (ROW READER, as_bytes) says inline=%s, "
+                                         "MAX_INLINE_LEN=%d - a value written inline is read back as a pointer (or the reverse)" % (ln, f[0], f[2], max_inline_real),
+                                 "len": ln, "flags_sv_inline_sv_ref_sp_inline_sp_ref": f, "case": {"op": "strpred", "lens": [ln]}})
+                    break
+        if k == "heapsizes" and "sizes" in r:
+            spec = []
+            for row in c["rows"]:
+                tot = 0
+                for a in c["arrays"]:
+                    v = a["values"][a["select"][row]] if a["select"] is not None else a["values"][row]
+                    if v is not None and v > max_inline_real:
+                        tot += v
+                spec.append(tot)
+            if r["sizes"] != spec:
+                i_bad = [i for i, (x, y) in enumerate(zip(r["sizes"], spec)) if x != y][0]
+                mism.append({"what": "compute_heap_sizes: output row %d (selected row %d) gets heap size %d, the non-inline valid strings of that row need %d bytes"
+                                     % (i_bad, c["rows"][i_bad], r["sizes"][i_bad], spec[i_bad]),
+                             "case": {k2: v for k2, v in c.items() if k2 != "id"}, "real_sizes": r["sizes"], "needed": spec})
+        if m is None:
+            continue        # no model prediction (a scanned constant is missing): the rules above and the search stages decide
         if want != m:
             mism.append({"case": {k2: v for k2, v in c.items() if k2 != "id"}, "real": want, "model": m})
         distinct.add((k, m[:60]))
@@ -206,8 +248,9 @@ def stage(ctx, rng, glayout, gmodel, tb):
             mism.append({"case": {k2: v for k2, v in c.items() if k2 != "id"}, "real": want, "model": m, "states": r.get("states")})
         distinct.add(("agg", m[:60]))
     sample = {"types": cases[60]["types"], "real": {k2: v for k2, v in real_main[60].items() if k2 in ("offsets", "row_width", "validity_width")}, "model": mout[60]}
+    missing = [k for k in PRED_KEYS + ["max_inline_len", "inline_buffer_len", "row_index_width", "heap_sizes_validity_by_selected_row", "row_writer_uses_view_is_inline"] if tb.get(k) is None]
     return {"n": n, "mismatches": mism, "distinct": len(distinct), "counts": counts, "agg_bind_errors": agg_bind_err,
-            "state_alignments_seen": sorted(aligns), "sample": sample}
+            "state_alignments_seen": sorted(aligns), "sample": sample, "missing_constants": missing, "model_predictions_skipped": len(cases) - len(send_idx)}
 
 
 def stage_rowtrip(ctx, rng, glayout):
@@ -385,9 +428,15 @@ def run(ctx):
     bad_assum = common.check_assumptions(pr) if pr["ok"] else []
     proof_broken = (not pr["ok"]) or bool(bad_assum) or bool(audit)
     discharged = 0 if proof_broken else len(obligations)
-    gmodel = common.build_ocaml("layout")
+    machinery = []
     t1 = time.time()
-    s = stage(ctx, rng, glayout, gmodel, tb)
+    try:
+        gmodel = common.build_ocaml("layout")
+        s = stage(ctx, rng, glayout, gmodel, tb)
+    except (SystemExit, Exception) as e:      # extraction / model driver failure: the implementation-side search still runs
+        machinery.append("model side failed: %s" % str(e)[:400])
+        s = {"n": 0, "mismatches": [], "distinct": 0, "counts": {}, "agg_bind_errors": 0, "state_alignments_seen": [], "sample": None,
+             "missing_constants": [k for k, v in tb.items() if v is None], "model_predictions_skipped": -1}
     for m in s["mismatches"][:30]:
         out["violations"].append({"what": m.get("what", "real layout / block arithmetic differs from the model (model/Layout.v)"), "replay": m, "no_input": False})
     rt = stage_rowtrip(ctx, rng, glayout)
@@ -406,11 +455,16 @@ def run(ctx):
             out["known"].append("order-by-list-panics: %s (%s)" % (listed["order-by-list-panics"]["what"], sql))
         else:
             out["violations"].append({"what": "ORDER BY a list column panics", "replay": {"sql": [sql], "result": str(last)[:300]}, "no_input": False})
-    if proof_broken:
-        out["violations"].append({"what": "theorem(s) in %s no longer check" % PROPS,
+    if proof_broken or machinery or s["missing_constants"]:
+        # the concrete failing inputs found on the implementation (above) are the replay; only without any: no-failing-input-found
+        found = [v["replay"] for v in out["violations"][:3]]
+        what = ("theorem(s) in %s no longer check" % PROPS) if proof_broken else \
+               ("source constants not found by vlib/tables_layout.py: %s" % ", ".join(s["missing_constants"])) if s["missing_constants"] else machinery[0]
+        out["violations"].append({"what": what,
                                   "replay": {"failed_at": pr.get("failed_at"), "log_tail": pr["log"][-1500:] if not pr["ok"] else "",
-                                             "assumption_problems": bad_assum, "audit": audit, "tables": tb},
-                                  "no_input": not out["violations"]})
+                                             "assumption_problems": bad_assum, "audit": audit, "tables": tb, "missing_constants": s["missing_constants"],
+                                             "machinery": machinery, "failing_inputs_found_on_the_implementation": found},
+                                  "no_input": not found})
     out["coverage"] = {
         "obligations": len(obligations), "discharged": discharged,
         "checker_cmd": "cd coq && make props/C16.vo (Print Assumptions parsed; Admitted/Axiom audit over the C16 files)",
@@ -436,6 +490,7 @@ def run(ctx):
                 "(every offset, width, validity width, heap flag, byte_offset(3,c), aggregate offsets/base_align/row_width, sort offsets/widths/compare_width/row_width/heap mapping, "
                 "every row pointer as (block, byte offset) and every block's (capacity, reserved)); distinct = distinct model outputs",
         "samples": [s["sample"]],
+        "missing_source_constants": s["missing_constants"], "model_predictions_skipped": s["model_predictions_skipped"],
         "case_counts": s["counts"], "aggregate_bind_errors_skipped": s["agg_bind_errors"], "state_alignments_seen": s["state_alignments_seen"],
         "source_constants": tb, "exhaustive": False,
         "stage_seconds": {"build+proofs": round(t1 - t0, 1), "correspondence": round(time.time() - t1, 1)},
